@@ -47,14 +47,22 @@ func runRetCase(c *h.Ctx, r *h.Report, cs retCase) {
 		restart[i] = true
 	}
 	multi := false
+	failed := 0
 	var prev []uint64
 	for i, sz := range cs.Payloads {
 		if restart[i] {
 			t.Close()
 			t = open()
 		}
+		if sz < 0 {
+			// a publication that fails INSIDE the write transaction (key too large for bbolt): refused, no effect
+			if err := t.Dispatch(&mercure.Update{Topics: []string{"t"}, Event: mercure.Event{ID: strings.Repeat("k", 40000)}}); err == nil {
+				r.Violate(h.Violation{Key: "C10:oversized-id-accepted", What: "a 40000-byte id was accepted", Replay: map[string]any{"family": "retention", "case": cs}})
+			}
+			failed++
+		}
 		id := fmt.Sprintf("u%d", i+1)
-		if err := t.Dispatch(&mercure.Update{Topics: []string{"t"}, Event: mercure.Event{ID: id, Data: strings.Repeat("x", sz)}}); err != nil {
+		if err := t.Dispatch(&mercure.Update{Topics: []string{"t"}, Event: mercure.Event{ID: id, Data: strings.Repeat("x", max(sz, 0))}}); err != nil {
 			panic(err)
 		}
 		seqs, _ := mercure.VerifBoltKeys(t)
@@ -115,13 +123,16 @@ func runRetCase(c *h.Ctx, r *h.Report, cs retCase) {
 	if len(cs.Restarts) > 0 {
 		r.Count("case:with-restart")
 	}
+	if failed > 0 {
+		r.Count("case:with-failed-transaction")
+	}
 	r.Count(fmt.Sprintf("freq:%v", cs.Freq))
 	r.Count(fmt.Sprintf("size:%d", cs.Size))
 	r.Sample(cs)
 }
 
 func runRetention(c *h.Ctx, r *h.Report) {
-	r.Rule = "publish histories on a real BoltTransport: size in {0,1,2,3,5,50}, cleanup frequency in {0, 0.25, 0.5, 1} (the coin is the runtime's: the model runs as an acceptor — after every publish the bucket's sequence numbers, read back through a white-box accessor, must be one of the two outcomes 'cleanup ran' / 'cleanup skipped'), 5-120 publishes, payloads up to 8 KiB so keys span several B-tree pages, close+reopen in between. The property's oracle (contiguous suffix ending at the last sequence, at least min(n,size) kept, exactly that many when cleanup always runs, size 0 keeps all) is evaluated on the implementation alone. Non-trivial = history in which one cleanup removed two or more keys; distinct by content."
+	r.Rule = "publish histories on a real BoltTransport: size in {0,1,2,3,5,50}, cleanup frequency in {0, 0.25, 0.5, 1} (the coin is the runtime's: the model runs as an acceptor — after every publish the bucket's sequence numbers, read back through a white-box accessor, must be one of the two outcomes 'cleanup ran' / 'cleanup skipped'), 5-120 publishes, payloads up to 8 KiB so keys span several B-tree pages, close+reopen in between, publications whose write transaction fails (oversized id) interleaved. The property's oracle (contiguous suffix ending at the last sequence, at least min(n,size) kept, exactly that many when cleanup always runs, size 0 keeps all) is evaluated on the implementation alone. Non-trivial = history in which one cleanup removed two or more keys; distinct by content."
 	if c.Replay != "" {
 		var rp struct {
 			Case retCase `json:"case"`
@@ -145,6 +156,9 @@ func runRetention(c *h.Ctx, r *h.Report) {
 			sz := rr.Intn(64)
 			if rr.Chance(1, 5) {
 				sz = 1000 + rr.Intn(7000)
+			}
+			if rr.Chance(1, 30) {
+				sz = -1 // preceded by a publication whose write transaction fails
 			}
 			cs.Payloads = append(cs.Payloads, sz)
 			if rr.Chance(1, 25) {
